@@ -7,6 +7,7 @@ THEOREMS = ['pad_gives_max_len_target', 'pad_appends_only_none', 'pad_clip_gives
             'negative_index_values_are_interchangeable', 'byte_mask_is_index', 'unmasked_is_index',
             'pad_refines_spec', 'pad_clip_refines_spec', 'fillna_refines_spec', 'fillna_refines_spec_wide',
             'frag_in_fillna_fragment', 'fillna_never_fails']
+PY_HALF = True     # harness/pyhalves.py: the Python-layer functions of this property under pyshim
 RULE = ('value-first random layouts with options at any level (five encodings, both polarities/bit orders, bit masks not a '
         'multiple of 8) x (rpad | rpadclip: target 0..6 x axis) | fillna(value); non-trivial = input has >= 1 None or a '
         'list shorter than the target; distinct by case text')
